@@ -114,7 +114,10 @@ def generate(rng, n, tier):
     for i in range(n):
         r = i % 10
         if r in (7, 8):
-            out.append(S.gen_case(rng, malformed=True))
+            c = S.gen_case(rng, malformed=True)
+            if c.get("malformed") == "sched_fail":
+                c["resume"] = True      # the scheduler crashes once; run() is called again
+            out.append(c)
         elif r == 9:
             out.append(S.gen_case(rng, real_algos=True, max_sessions=12))
         else:
@@ -130,11 +133,13 @@ def search(rng, n):
 
 
 def run_impl(case):
+    if case.get("resume"):          # crash/resume: run() is called again after it raised
+        return S.run_impl_resume(case)
     return S.run_impl(case)
 
 
 def model_request(case):
-    return S.model_request(case)
+    return S.model_request(case, resume=bool(case.get("resume")))
 
 
 def compare(case, obs, model):
@@ -144,11 +149,15 @@ def compare(case, obs, model):
 # ------------------------------------------------------------------ oracle: C01 stated on the implementation
 
 SCHED_FAULTS = {"invalid_rate", "sched_unknown_station", "ragged", "sched_fail", "min_rate"}
+# a scheduler crash followed by a second run() is in scope again: the resumed run must complete the
+# history exactly as an uninterrupted one (this is what F7 broke in the last period)
 PREC = {"Unplug": 0, "Plugin": 1, "Recompute": 2}
 PREMISE_ERRORS = ("InvalidRate", "InvalidSchedule", "SchedulerFailed")
 
 
 def in_scope(case):
+    if case.get("malformed") == "sched_fail" and case.get("resume"):
+        return S.is_valid_layout(case)
     return S.is_valid_layout(case) and case.get("malformed") not in SCHED_FAULTS
 
 
@@ -235,6 +244,7 @@ def features(case, obs):
          "sessions=" + ("0" if n == 0 else "1-3" if n <= 3 else "4-8" if n <= 8 else "9-25"),
          f"sched={case['sched']['type']}", f"period={case['period']}", f"max_recompute={case['max_recompute']}",
          f"err={obs.get('err')}", f"malformed={case.get('malformed')}",
+         f"resumed={'first' in obs}",
          "back_to_back=" + ("0" if _b2b(case) == 0 else "1-2" if _b2b(case) <= 2 else "3+"),
          "simultaneous=" + ("0" if _simul(case) == 0 else "1-3" if _simul(case) <= 3 else "4+"),
          f"recomputes={min(len(case.get('recomputes', [])), 3)}",
